@@ -426,6 +426,8 @@ struct Universe {
     zones: Vec<UZone>,
     /// parents answer an NS question at a zone cut with a referral (as BIND does) instead of an answer
     ns_at_cut_is_referral: bool,
+    /// glue records are served with TTL 0 ("use, do not cache"): open finding C07-K1
+    glue_ttl0: bool,
 }
 
 impl Universe {
@@ -463,7 +465,7 @@ impl Universe {
                                         IpAddr::V4(x) => RecordTypeWithData::A { address: *x },
                                         IpAddr::V6(x) => RecordTypeWithData::AAAA { address: *x },
                                     },
-                                    300,
+                                    if self.glue_ttl0 { 0 } else { 300 },
                                 ));
                             }
                         }
@@ -514,7 +516,7 @@ impl Universe {
                                         IpAddr::V4(x) => RecordTypeWithData::A { address: *x },
                                         IpAddr::V6(x) => RecordTypeWithData::AAAA { address: *x },
                                     },
-                                    300,
+                                    if self.glue_ttl0 { 0 } else { 300 },
                                 ));
                             }
                         }
@@ -696,7 +698,8 @@ fn gen_universe(r: &mut Rng, single_ns: bool, dual: bool) -> Universe {
             }
         }
     }
-    Universe { zones, ns_at_cut_is_referral: r.chance(1, 2) }
+    let glue_ttl0 = single_ns && !dual && r.chance(1, 40);
+    Universe { zones, ns_at_cut_is_referral: r.chance(1, 2), glue_ttl0 }
 }
 
 fn universe_script(u: &Universe, questions: &[Question]) -> Vec<Entry> {
